@@ -181,3 +181,35 @@ Theorem C18_accessor_current_locale :
   let k := a_nacc a0 in
   (k < c_nacc s)%nat /\ render_with (fun l => icu l f v) s k = icu (a_loc a (a_hctx a0 h)) f v.
 Proof. exact (fun fmt value text icu f v => @accessor_renders_current_text text (fun l => icu l f v)). Qed.
+
+(** * defaulted keys (the imports below shadow [lit]: keep this section last) *)
+From LI Require Import Parser.Parse Parser.Merge Codegen.Target Codegen.LocaleMatch Codegen.FormatLocale
+  Codegen.FormatLocaleProofs.
+
+(** a DEFAULTED key (absent or null in the requested locale, possibly reached through an `inherits` chain):
+    for every configuration, every presence pattern of the key and every configured requested locale, the
+    generated match runs the code of the value of the EFFECTIVE locale (first locale of the inherits walk that
+    defines the key, else the default) with `_locale` = the REQUESTED locale - so `{{ var, formatter(args) }}`
+    is formatted for the locale being rendered, with the options of the template that is shown.
+    [ev_view] / [ev_string]: running an arm body with `_locale` bound to a locale (ICU4X, an oracle) *)
+Theorem C18_defaulted_uses_requested_locale :
+  forall (out : Type) (ev_view : N -> tv -> out) (ev_string : N -> ts -> out)
+         (dflt : N) (inherits : list (N * N)) (others : list N) (defs : list (N * pv)),
+  NoDup (map fst defs) -> ~ In dflt others -> In dflt (map fst defs) ->
+  (forall t, In t (map fst defs) -> t = dflt \/ In t others) ->
+  (forall x y, map_get inherits x = Some y -> In x others /\ (y = dflt \/ In y others)) ->
+  let defines := fun l => existsb (N.eqb l) (map fst defs) in
+  let d := defaults_of dflt inherits others defines in
+  forall requested, (requested = dflt \/ In requested others) ->
+  exists v, assoc_get defs (first_defined (map_get inherits) defines dflt (S (length others)) requested) = Some v
+            /\ exec_view out ev_view (compute d) defs requested = Some (ev_view requested (gen_view v))
+            /\ exec_string out ev_string (compute d) defs requested = Some (ev_string requested (gen_string v)).
+Proof. exact defaulted_uses_requested_locale. Qed.
+
+(** re-binding `_locale` to the arm's own locale is refuted: default locale 0 defines `{{ v, f }}`, locale 1 does
+    not; rendering for 1 would format with locale 0 *)
+Theorem C18_rebind_refuted : forall (f : fmt),
+  exec_view_rebind (N * tv) (fun loc code => (loc, code)) w_groups (w_defs f) 1%N = Some (0%N, gen_view (PVar [118%N] f))
+  /\ exec_view (N * tv) (fun loc code => (loc, code)) w_groups (w_defs f) 1%N = Some (1%N, gen_view (PVar [118%N] f)).
+Proof. exact rebind_refuted. Qed.
+
